@@ -497,7 +497,8 @@ func (v *SequenceDiagramVisitor) visitStatment(e *StatementElement) error {
 		case *sysl.Statement_Ret:
 			err = v.visitRet(e, c.Ret)
 		default:
-			panic("Unrecognised statement type")
+			// A statement whose oneof is not set: the parser does not produce one, a module read from protobuf can hold it.
+			err = fmt.Errorf("statement %d of %s <- %s has no recognised type (%T)", i, e.appName, e.endpointName, s.Stmt)
 		}
 		if err != nil {
 			return err
